@@ -23,6 +23,7 @@ EXTENDS WsRead, Integers, Sequences, FiniteSets, TLC, Json
 
 CONSTANTS StreamName,
           Pk,         \* packets of the stream: sequence of [h |-> header bytes, b |-> body bytes]
+          HasDisc,    \* the last packet is DISCONNECT (2 bytes)
           Fams,       \* families to enumerate: records made with Fam(..) below
           BufSize,    \* size of the bufio.Reader in front of the packet reader (readBufferSize = 1024)
           MaxChunks   \* bound on the number of messages in the stepwise families
@@ -49,7 +50,16 @@ MinOf(S) == CHOOSE x \in S : \A y \in S : x <= y
 (*   c    set of cut positions (kind "cuts")                               *)
 (*   z    number of empty messages sent after every message                *)
 (*   x    index of the message that is sent as a TEXT message (0 = none)   *)
-Fam(t, a, b, c, z, x) == [t |-> t, a |-> a, b |-> b, c |-> c, z |-> z, x |-> x]
+(*   d    1: DISCONNECT is a message of its own (the family shapes the     *)
+(*        N-2 bytes before it).  gmqtt stops writing when it has handled   *)
+(*        DISCONNECT, so answers to packets that are completed by the same *)
+(*        message as DISCONNECT may be lost; with d = 1 every answer is    *)
+(*        owed.  The "merged" variants (d = 0) pack DISCONNECT with what   *)
+(*        precedes it.                                                     *)
+DD == IF HasDisc THEN 1 ELSE 0
+Fam(t, a, b, c, z, x) == [t |-> t, a |-> a, b |-> b, c |-> c, z |-> z, x |-> x, d |-> DD]
+Merged(F) == {[f EXCEPT !.d = 0] : f \in F}
+Tgt(f) == IF f.d = 1 THEN N - 2 ELSE N
 
 Clip(S) == S \cap 1..(N - 1)
 D3 == {-1, 0, 1}
@@ -65,11 +75,11 @@ Pair(i, j, d1, d2) == Fam("pair", Ends[i] + d1, Ends[j] + d2, Clip({Ends[i] + d1
 \* a message of length l that starts at offset a
 Span(a, l) == Fam("span", a, l, Clip({a, a + l}), 0, 0)
 
-BoundaryFams ==
-    {BndAll(d) : d \in D3}
-    \cup {Single(e, d) : e \in Inner, d \in D3}
-    \cup UNION {{Pair(ij[1], ij[2], d1, d2) : d1 \in D3, d2 \in D3} :
-                   ij \in {q \in (1..(Len(Pk) - 2)) \X (2..(Len(Pk) - 1)) : q[2] > q[1] /\ q[2] <= q[1] + 2}}
+Singles == {Single(e, d) : e \in Inner, d \in D3}
+BndAlls == {BndAll(d) : d \in D3}
+Pairs(w) == UNION {{Pair(ij[1], ij[2], d1, d2) : d1 \in D3, d2 \in D3} :
+                     ij \in {q \in (1..(Len(Pk) - 2)) \X (2..(Len(Pk) - 1)) : q[2] > q[1] /\ q[2] <= q[1] + w}}
+BoundaryFams == BndAlls \cup Singles \cup Pairs(2)
 
 SpanFams(lens) ==
     UNION {{Span(a, l) : l \in {m \in lens : a + m < N}} :
@@ -83,13 +93,13 @@ Empties(zs) == {[BndAll(0) EXCEPT !.t = "empties", !.z = z] : z \in zs}
                \cup {[Uniform(s, 0) EXCEPT !.t = "empties-uni", !.z = 1] : s \in {m \in {1, BufSize + 1} : m < N}}
 
 \* the packet-aligned segmentation (and the one shifted by one byte) with message x sent as text
-TextFams == UNION {{[BndAll(d) EXCEPT !.t = "text", !.x = x] : x \in 1..Len(Pk)} : d \in {0, 1}}
+TextFams == UNION {{[BndAll(d) EXCEPT !.t = "text", !.x = x, !.d = 0] : x \in 1..Len(Pk)} : d \in {0, 1}}
 
 \* stepwise (non-deterministic) families
-AllComps       == Fam("all", 0, 0, {}, 0, 0)             \* every composition of N
+AllComps       == Fam("all", 0, 0, {}, 0, 0)             \* every composition
 KCuts(k)       == Fam("kcuts", k, 0, {}, 0, 0)           \* every segmentation with at most k cuts
 Window(lo, hi) == Fam("window", lo, hi, {}, 0, 0)        \* every composition of the bytes lo..hi, one message before, one after
-Walk           == Fam("walk", 0, 0, {}, 0, 0)            \* random walk over the interesting lengths (-simulate)
+Walk           == [Fam("walk", 0, 0, {}, 0, 0) EXCEPT !.d = 0]   \* random walk over the interesting lengths (-simulate)
 
 Stepwise(f) == f.t \in {"all", "kcuts", "window", "walk"}
 
@@ -102,11 +112,12 @@ SortedCuts(S, from) == IF S = {} THEN <<>>
 SegOf(f) ==
     IF f.t \in {"uni", "empties-uni"}
     THEN LET first == IF f.b > 0 THEN <<f.b>> ELSE <<>>
-             rest  == N - f.b
+             rest  == Tgt(f) - f.b
              full  == rest \div f.a
              tail  == IF rest % f.a > 0 THEN <<rest % f.a>> ELSE <<>>
-         IN first \o [i \in 1..full |-> f.a] \o tail
-    ELSE SortedCuts(f.c \cup {N}, 0)
+             disc  == IF f.d = 1 THEN <<2>> ELSE <<>>
+         IN first \o [i \in 1..full |-> f.a] \o tail \o disc
+    ELSE SortedCuts(f.c \cup {N} \cup (IF f.d = 1 THEN {N - 2} ELSE {}), 0)
 
 \* z empty messages after every message
 WithEmpties(s, z) == IF z = 0 THEN s
@@ -123,12 +134,14 @@ WalkLens(p) ==
         \cup {N - p - 2, N - p}) \cap 1..(N - p)
 
 Choices(f, p, n) ==
-    CASE f.t = "all"    -> 1..(N - p)
-      [] f.t = "kcuts"  -> IF n >= f.a THEN {N - p} ELSE 1..(N - p)
-      [] f.t = "window" -> IF p < f.a THEN {f.a - p}
-                           ELSE IF p < f.b THEN 1..(f.b - p)
-                           ELSE {N - p}
-      [] f.t = "walk"   -> WalkLens(p)
+    LET T == Tgt(f) IN
+    IF p >= T THEN {N - p}
+    ELSE CASE f.t = "all"    -> 1..(T - p)
+           [] f.t = "kcuts"  -> IF n >= f.a THEN {T - p} ELSE 1..(T - p)
+           [] f.t = "window" -> IF p < f.a THEN {f.a - p}
+                                ELSE IF p < f.b THEN 1..(f.b - p)
+                                ELSE {T - p}
+           [] f.t = "walk"   -> WalkLens(p)
 
 Init == /\ fam \in Fams
         /\ IF Stepwise(fam) THEN pos = 0 /\ seg = <<>>
@@ -190,18 +203,23 @@ Start == [i |-> 1, ph |-> "h", need |-> Pk[1].h, avail |-> 0, drop |-> -1, n |->
 
 Done(st) == st.drop >= 0 \/ st.i > Len(Pk)
 
+\* the current phase wants nothing more: go on to the body / the next packet (a body may be empty)
+Adv(st) == IF st.ph = "h" THEN [st EXCEPT !.ph = "b", !.need = Pk[st.i].b]
+           ELSE IF st.i = Len(Pk) THEN [st EXCEPT !.i = @ + 1, !.need = 1]
+           ELSE [st EXCEPT !.i = @ + 1, !.ph = "h", !.need = Pk[st.i + 1].h]
+Norm(st) == IF st.need > 0 THEN st
+            ELSE LET a == Adv(st) IN IF a.need > 0 THEN a ELSE Adv(a)
+
+\* one step: take what is buffered, or else one call of wsConn.Read
 Step(s, st) ==
-    IF st.need = 0
-    THEN IF st.ph = "h" THEN [st EXCEPT !.ph = "b", !.need = Pk[st.i].b]
-         ELSE IF st.i = Len(Pk) THEN [st EXCEPT !.i = @ + 1]
-         ELSE [st EXCEPT !.i = @ + 1, !.ph = "h", !.need = Pk[st.i + 1].h]
-    ELSE IF st.avail > 0
-         THEN LET c == Min(st.need, st.avail) IN [st EXCEPT !.need = @ - c, !.avail = @ - c]
-         ELSE LET direct == st.ph = "b" /\ st.need >= BufSize
-                  x == WsReadLen(s, st.w, IF direct THEN st.need ELSE BufSize)
-              IN IF x.drop >= 0 THEN [st EXCEPT !.drop = x.drop, !.n = x.n]
-                 ELSE IF direct THEN [st EXCEPT !.need = @ - x.k, !.w = x.w]
-                      ELSE [st EXCEPT !.avail = x.k, !.w = x.w]
+    IF st.avail > 0
+    THEN LET c == Min(st.need, st.avail) IN Norm([st EXCEPT !.need = @ - c, !.avail = @ - c])
+    ELSE LET direct == st.ph = "b" /\ st.need >= BufSize
+             x == WsReadLen(s, st.w, IF direct THEN st.need ELSE BufSize)
+             c == Min(st.need, x.k)
+         IN IF x.drop >= 0 THEN [st EXCEPT !.drop = x.drop, !.n = x.n]
+            ELSE IF direct THEN Norm([st EXCEPT !.need = @ - x.k, !.w = x.w])
+                 ELSE Norm([st EXCEPT !.need = @ - c, !.avail = x.k - c, !.w = x.w])
 
 RECURSIVE RunK(_, _, _)
 RunK(s, st, k) == IF k = 0 \/ Done(st) THEN st ELSE RunK(s, Step(s, st), k - 1)
@@ -213,7 +231,7 @@ ImplFirstDrop(s) == LET e == Run(s, Start) IN [drop |-> e.drop, n |-> e.n]
 ----------------------------------------------------------------------------
 (* One line per complete segmentation.                                     *)
 Emit == (pos = N) =>
-          LET d == IF fam.x = 0 THEN ImplFirstDrop(seg) ELSE NoDrop
-          IN PrintT(ToJson([stream |-> StreamName, fam |-> fam.t, a |-> fam.a, b |-> fam.b, z |-> fam.z,
-                            text |-> fam.x, seg |-> seg, drop |-> d.drop, dropn |-> d.n]))
+          LET pr == ImplFirstDrop(seg)
+          IN PrintT(ToJson([stream |-> StreamName, fam |-> fam.t, a |-> fam.a, b |-> fam.b, z |-> fam.z, d |-> fam.d,
+                            text |-> fam.x, seg |-> seg, drop |-> pr.drop, dropn |-> pr.n]))
 =============================================================================
